@@ -70,6 +70,11 @@ let tp_apply_range f a =
   let rest = List.filter (fun (k', _, _) -> k' <> k) f.f_ranges in
   f.f_ranges <- List.sort (fun (k1, _, _) (k2, _, _) -> compare k1 k2) ((k, dd, trs) :: rest)
 
+(* n = 0 in an n-th weekday specification ("monday 0"): not a day definition -> rejected *)
+let tp_ast_nth_zero s =
+  List.exists (fun sp -> match String.split_on_char '.' sp with ["w"; _; "z"; _] -> true | _ -> false)
+    (String.split_on_char '~' (List.hd (String.split_on_char '/' s)))
+
 let tp_existing names = List.filter_map (fun n -> Hashtbl.find_opt tp_tab n) names
 
 let tp_upd_fun f =
@@ -122,6 +127,14 @@ let oracle_c08_case script trace =
                    | [t; o] -> (z_of_int (int_of_string t), z_of_int (int_of_string o)) | _ -> failwith "tab")
                  (split_c (str a "tab" "-") ','));
       next li (fun l -> if l <> "tp_tz ok" then fail (Printf.sprintf "step=%d tz-table %s" li l))
+    | Some ("tp_parse", a) ->
+      next li (fun l ->
+        let want = if tp_ast_nth_zero (str a "ast" "") then "rejected" else "ok" in
+        match tok_val (toks_of l) "res" with
+        | Some r when r = want -> ()
+        | Some "hang" -> fail (Printf.sprintf "step=%d op=tp_parse day-definition-never-finishes (validation hangs)" li)
+        | Some r -> fail (Printf.sprintf "step=%d op=tp_parse res=%s expected=%s" li r want)
+        | None -> fail (Printf.sprintf "step=%d unexpected-line %s" li l))
     | Some ("tp_new", a) -> Hashtbl.replace fx (str a "name" "") (tp_new_fix a)
     | Some ("tp_own", a) -> (Hashtbl.find fx (str a "name" "")).f_own <- List.map parse_seg (split_c (str a "segs" "-") ',')
     | Some ("tp_range", a) -> tp_apply_range (Hashtbl.find fx (str a "name" "")) a
@@ -155,6 +168,11 @@ let oracle_c08_case script trace =
                  then None else Some "update-region")
               else begin
                 let (base, tab) = !zone in
+                let rg = List.map (fun (_, dd, trs) -> (dd, trs)) f.f_ranges in
+                let noop = (not clear) && int_of_z (zi "e") < int_of_z (tp_ve_num pre) in
+                if (not noop) && not (tp_cal_hyps_ok base tab rg (tp_upd_begin (zi "b") clear pre) (zi "e")) then
+                  Some "calendar-hypotheses-not-met (table / exists-exactly-once check failed)"
+                else
                 match tp_cal_step_ok base tab
                         (List.map (fun (_, dd, trs) -> (dd, trs)) f.f_ranges)
                         f.f_prefer incs excs (zi "b") (zi "e") clear probes pre post ins with
@@ -177,6 +195,8 @@ let () =
                     | [t; o] -> (z_of_int (int_of_string t), z_of_int (int_of_string o)) | _ -> failwith "tab")
                   (split_c (str a "tab" "-") ','));
     emit "tp_tz ok");
+  register_op "tp_parse" (fun a ->
+    emit ("tp_parse res=" ^ (if tp_ast_nth_zero (str a "ast" "") then "rejected" else "ok")));
   register_op "tp_new" (fun a -> Hashtbl.replace tp_tab (str a "name" "") (tp_new_fix a));
   register_op "tp_own" (fun a -> (tp_get a).f_own <- List.map parse_seg (split_c (str a "segs" "-") ','));
   register_op "tp_range" (fun a -> tp_apply_range (tp_get a) a);
